@@ -37,6 +37,20 @@ OTHER_KINDS = {'str': 'ab', 'emptystr': '', 'none': None, 'float': 1.0, 'list': 
                'dict': {}, 'object': object(), 'complex': 1j, 'set': frozenset()}
 
 
+OBSERVERS = ('iter', 'raw', 'so0', 'so1', 'p2sh', 'wspk', 'wver', 'k', 'nk', 'sh', 'nsh', 'push', 'canon', 'unsp',
+             'valid', 'len', 'bytes', 'repr', 'hash', 'eq', 'add', 'top2sh')
+ROUTES = ('bytes', 'bytearray', 'oplist', 'slice', 'addbytes', 'rejoin', 'copyctor')
+
+# scripts on which the whole ordered-pair matrix of observers is run (one object, never rebuilt between calls)
+HIST_SHAPES = tuple(bytes.fromhex(h) for h in (
+    '', '51ae', '52af', '60ae', '5fafac', '00ae', '4fae', 'ae', 'af', 'ac', 'ad', '5151ae', '51ac52ae', '51ae52af60ae',
+    '0151ae', '015152ae', '51ae4c', '52af05ab', '4c', '4d01', '4e000000', '05ab', '0101', '4c0151', '4d010051',
+    '6a', '6a51ae', '00', '0000', '51', '4f', '50', '61', 'ff', '0102', '020102',
+    'a914' + '11' * 20 + '87', 'a914' + '11' * 20 + '88', 'a914' + '11' * 19 + '87',
+    '0014' + '22' * 20, '0020' + '33' * 32, '160014' + '22' * 20, '220020' + '33' * 32,
+    '5102abcd', '6028' + '44' * 40, '5202ab', 'd102abcd', '0014' + '22' * 19,
+    '51ae' * 3 + 'ac', '76a914' + '55' * 20 + '88ac', '5221' + '02' * 33 + '21' + '03' * 33 + '52ae'))
+
 OPNEW_SEQS = ((256,), (256, -1, 255, -257, 256), (-1, 256, -1, 257, -1, -258, 258, 259), (257, 256, 257, 258, 256),
               (256, 257, 258, -3, -259, 0, 300), (-256, -257, 256, -257, -258))
 
@@ -188,6 +202,115 @@ class C08(Prop):
         if type(s) is not self.SC.CScript or type(s2) is not self.SC.CScript or bytes(s) != raw or bytes(s2) != raw:
             raise BytesInputMismatch()
         return s
+
+    def make_by_route(self, raw, route, prime):
+        """One CScript object with bytes `raw`, obtained through `route`.  Routes that derive the object from
+        another script first run `prime` on that parent (a cache filled there must not travel)."""
+        SC = self.SC
+        if route == 'bytearray':
+            return SC.CScript(bytearray(raw))
+        if route == 'oplist':                      # every byte as a CScriptOp token
+            return SC.CScript([SC.CScriptOp(b) for b in raw])
+        if route == 'slice':
+            parent = SC.CScript(b'\xac' + raw + b'\x51\xae')
+            prime(parent)
+            return SC.CScript(parent[1:1 + len(raw)])
+        if route == 'addbytes':                    # grown by `+` from an observed prefix
+            k = len(raw) // 2
+            cur = SC.CScript(raw[:k])
+            prime(cur)
+            for b in raw[k:]:
+                cur = cur + SC.CScriptOp(b)
+                if b in (0xae, 0xaf):
+                    prime(cur)
+            return cur
+        if route == 'copyctor':                    # CScript(<observed CScript>)
+            parent = SC.CScript(raw)
+            prime(parent)
+            return SC.CScript(parent)
+        if route == 'rejoin':                      # the script's own iteration joined again, when that is the script
+            parent = SC.CScript(raw)
+            prime(parent)
+            try:
+                child = SC.CScript(iter(parent))
+                if bytes(child) == raw:
+                    return child
+            except Exception:  # noqa: BLE001
+                pass
+            return SC.CScript(parent)
+        return SC.CScript(raw)
+
+    def observe(self, s, o):
+        """one observer applied to the script OBJECT `s` (never rebuilt here)"""
+        SC = self.SC
+
+        def b(fn):
+            def g():
+                v = fn()
+                return '1' if v is True else '0' if v is False else 'nonbool:%r' % (v,)
+            return guarded(g)
+
+        def cnt(acc):
+            def g():
+                n = s.GetSigOpCount(acc)
+                return str(n) if type(n) is int else 'nonint:%r' % (n,)
+            return guarded(g)
+        if o == 'iter':
+            return guarded(lambda: self.cooked_text(s))
+        if o == 'raw':
+            return guarded(lambda: self.raw_text(s))
+        if o == 'so0':
+            return cnt(False)
+        if o == 'so1':
+            return cnt(True)
+        preds = {'p2sh': 'is_p2sh', 'wspk': 'is_witness_scriptpubkey', 'k': 'is_witness_v0_keyhash',
+                 'nk': 'is_witness_v0_nested_keyhash', 'sh': 'is_witness_v0_scripthash',
+                 'nsh': 'is_witness_v0_nested_scripthash', 'push': 'is_push_only', 'canon': 'has_canonical_pushes',
+                 'unsp': 'is_unspendable', 'valid': 'is_valid'}
+        if o in preds:
+            return b(getattr(s, preds[o]))
+        if o == 'wver':
+            return guarded(lambda: self.obj_tok(s.witness_version()))
+        if o == 'len':
+            return guarded(lambda: str(len(s)))
+        if o == 'bytes':
+            return guarded(lambda: bytes(s).hex())
+        if o == 'add':
+            outs = []
+            for t in (SC.CScriptOp(0xac), 1, b'ab'):
+                def g(t=t):
+                    r = s + t
+                    return bytes(r).hex() if type(r) is SC.CScript else 'not-a-CScript'
+                outs.append(guarded(g))
+            return ','.join(outs)
+        if o == 'repr':
+            return guarded(lambda: '1' if isinstance(repr(s), str) and repr(s) == repr(SC.CScript(bytes(s))) else '0')
+        if o == 'hash':
+            return guarded(lambda: '1' if hash(s) == hash(bytes(s)) else '0')
+        if o == 'eq':
+            return guarded(lambda: '1' if (s == bytes(s) and s == SC.CScript(bytes(s)) and not (s != bytes(s))) else '0')
+        if o == 'top2sh':
+            def g():
+                import bitcoin.core
+                want = SC.CScript([SC.OP_HASH160, bitcoin.core.Hash160(bytes(s)), SC.OP_EQUAL])
+                got = s.to_p2sh_scriptPubKey()
+                return '1' if type(got) is SC.CScript and bytes(got) == bytes(want) else '0'
+            return guarded(g)
+        raise ValueError(o)
+
+    def raw_text(self, script):
+        out, err = [], ''
+        it = script.raw_iter()
+        while True:
+            try:
+                (o, d, idx) = next(it)
+            except StopIteration:
+                break
+            except Exception as e:  # noqa: BLE001
+                err = self.iter_err_text(e)
+                break
+            out.append('(%d,%s,%d)' % (o, '-' if d is None else bytes(d).hex(), idx))
+        return '[' + ''.join(out) + ']' + err
 
     def build_all(self, objs, what):
         """Build from every container kind (and with byte strings given as bytearray / alternating); all
@@ -454,6 +577,33 @@ class C08(Prop):
             for j, s in enumerate(part(three)):
                 yield from observers(s.hex(), 'exh3', full=(j % 5 == 0))
 
+        # (a') objects with history: observers run in sequence on ONE CScript object (never rebuilt between calls);
+        # the model answers each observer statelessly.  Enumerations below are identical in every shard (crng).
+        crng = random.Random('%s:C08:common:hist' % getattr(self, 'seed', 0))
+
+        def hist_cases():
+            n = 0
+            for s in HIST_SHAPES:                       # every ordered pair of observers, routes rotating
+                for x in OBSERVERS:
+                    for y in OBSERVERS:
+                        n += 1
+                        yield mk('c08.hist', s.hex(), x + ',' + y, ROUTES[n % len(ROUTES)], tag='hist2')
+                for _ in range(120 if big else 40):     # triples
+                    n += 1
+                    yield mk('c08.hist', s.hex(), ','.join(crng.choice(OBSERVERS) for _ in range(3)),
+                             ROUTES[n % len(ROUTES)], tag='hist3')
+            short = (bytes(t) for k in (0, 1, 2) for t in itertools.product(range(256), repeat=k))
+            for s in short:                             # every short script: both orders of the two sigop modes
+                n += 1
+                yield mk('c08.hist', s.hex(), 'so0,so1,so0', ROUTES[n % len(ROUTES)], tag='hist-so')
+                yield mk('c08.hist', s.hex(), 'so1,so0,so1', ROUTES[(n + 3) % len(ROUTES)], tag='hist-so')
+                if big or n % 4 == 0:                   # and a rotating pair/triple of any observers
+                    k = 2 + (n % 2)
+                    yield mk('c08.hist', s.hex(), ','.join(crng.choice(OBSERVERS) for _ in range(k)),
+                             crng.choice(ROUTES), tag='hist-any')
+        for c in part(hist_cases()):
+            yield c
+
         # (b) builder: single tokens (every opcode value, every int edge, every length edge), then sequences
         singles = ['o:%d' % n for n in range(0, 0x100)] + ['i:%d' % z for z in edges]
         singles += ['b:0', 'b:1'] + ['x:' + k for k in sorted(OTHER_KINDS)]
@@ -639,19 +789,19 @@ class C08(Prop):
         if op == 'c08.cooked':
             return guarded(lambda: self.cooked_text(self.script_of(a[0])))
         if op == 'c08.raw':
+            return guarded(lambda: self.raw_text(self.script_of(a[0])))
+        if op == 'c08.hist':
             def f():
-                out, err = [], ''
-                it = self.script_of(a[0]).raw_iter()
-                while True:
-                    try:
-                        (o, d, idx) = next(it)
-                    except StopIteration:
-                        break
-                    except Exception as e:  # noqa: BLE001
-                        err = self.iter_err_text(e)
-                        break
-                    out.append('(%d,%s,%d)' % (o, '-' if d is None else bytes(d).hex(), idx))
-                return '[' + ''.join(out) + ']' + err
+                raw = bytes.fromhex(a[0])
+                obs = a[1].split(',')
+
+                def prime(parent):
+                    for o in obs:
+                        self.observe(parent, o)
+                obj = self.make_by_route(raw, a[2], prime)
+                if type(obj) is not SC.CScript or bytes(obj) != raw:
+                    return 'route-%s-gave-other-bytes' % a[2]
+                return ' | '.join(self.observe(obj, o) for o in obs)       # ONE object, observed in sequence
             return guarded(f)
         if op == 'c08.preds':
             try:
@@ -731,7 +881,8 @@ class C08(Prop):
 
     def shrink_candidates(self, c):
         op, a, tag = c['op'], c['args'], c.get('tag', '')
-        if op in ('c08.raw', 'c08.cooked', 'c08.preds', 'c08.sigops', 'c08.vch2bn', 'c08.pushdata', 'c08.mpi2bn'):
+        if op in ('c08.raw', 'c08.cooked', 'c08.preds', 'c08.sigops', 'c08.vch2bn', 'c08.pushdata', 'c08.mpi2bn',
+                  'c08.hist'):
             s = bytes.fromhex(a[0])
             rest = a[1:]
             for j in range(len(s)):                     # delete one byte
